@@ -1060,7 +1060,7 @@ func paramAlwaysFresh(p *ssa.Parameter) bool {
 // into exactly that link: the skipped write would change nothing.  A shortcut
 // on any other equality skips writes that matter.
 func ruleNoopGuard(c *Ctx, pkg string) {
-	c.rule("R-NOOP-GUARD", 2, "a no-op exit taken on `x.f == v` skips a function that stores v into x.f: the equality tested is the one the skipped write would establish")
+	c.rule("R-NOOP-GUARD", 1, "a no-op exit taken on `x.f == v` skips a function that stores v into x.f: the equality tested is the one the skipped write would establish")
 	for _, fn := range c.P.PkgFuncs(pkg) {
 		if fn.Parent() != nil {
 			continue
